@@ -163,12 +163,17 @@ def lis_passes(src):
             if group_has_pass:
                 group_has_pass = False
         elif kind == 'pass':
+            if not payload['frames']:
+                dropped.append(False)      # a format specification without data records: a log pass of 0 frames, no LAS file
+                continue
             dropped.append(group_has_pass)
             group_has_pass = True
     for k, p in enumerate(model['passes']):
         pm = c06.PassModel(p, model)
         lp = pm.lp
         n = pm.n
+        if n == 0:
+            continue
         names, dtypes, cols = [], [], []
         if lp['indirect']:
             names.append('X')
@@ -243,7 +248,7 @@ def sources(fmt, max_frames):
     if fmt == 'RP66V1':
         return GT.tolas_files(max_files=2, max_frame_types=3, max_channels=5, max_frames=max_frames)
     if fmt == 'LIS':
-        return GL.lis_files(max_passes=2, max_frames=max_frames, allow_dipmeter=False)
+        return GL.lis_files(max_passes=2, max_frames=max_frames, allow_dipmeter=False, empty_passes=True)
     return st.one_of(GB.bit_models(max_passes=3, max_channels=6, max_frames=max_frames, min_frames=1),
                      GB.bit_models(max_passes=3, max_channels=6, max_frames=max_frames, min_frames=3),
                      GB.bit_models(max_passes=2, max_channels=4, max_frames=max_frames, min_frames=6)).map(_bit_plain_names)
@@ -563,6 +568,7 @@ def check(case, cc):
     cc.cls('reduction:' + reduction, any(len(c[0]) > 1 for p in passes for c in p['cols']) and fmt != 'BIT')
     cc.cls('format:' + case['float_format'][-1])
     cc.cls('width<=8', case['width'] <= 8)
+    cc.cls('lis-empty-log-pass-before-data', fmt == 'LIS' and any(k == 'pass' and not pl['frames'] for k, pl in case['src']['items']))
     cc.cls('implied-x', fmt == 'LIS' and any(p['implied_x'] for p in passes))
     cc.cls('explicit-x', fmt == 'LIS' and any(not p['implied_x'] for p in passes))
     cc.cls('lis-optical-units', fmt == 'LIS' and any(p['factor'] != 1 for p in passes))
